@@ -6,7 +6,7 @@ quantified: the theorems hold for every such library. Helper lemmas: `Lemmas/Jso
 -/
 import Rscp.Lemmas.JsonIn
 namespace Rscp.Props.C12
-open Rscp Rscp.Model
+open Rscp Rscp.Model Rscp.Lemmas.JsonIn
 
 /-- Every way of writing a (valid) request — bare tag, tuple, object, with the data type inferred from the tag or
     given explicitly, names or numbers for tags, any spelling of a number — is read back as exactly that request:
@@ -15,14 +15,18 @@ open Rscp Rscp.Model
 theorem written_is_read (lib : JsonLib) (o : Bool) (m : Msg) (j : J) (h : Spec.Writes lib o m j)
     (hv : validateMsg m = .ok ()) (f : Nat) (hf : 4 * j.size + 4 ≤ f) :
     requestOfJ lib f j = .ok m := by
-  sorry
+  exact (request_read lib f).1 o m j h hv (by omega)
 
 theorem notations_agree (lib : JsonLib) (ms : List Msg) (js₁ js₂ : List J)
     (h₁ : Spec.WritesList lib false ms js₁) (h₂ : Spec.WritesList lib false ms js₂)
     (hv : validateMsgs ms = .ok ()) :
     requestsOfJ lib (4 * (J.arr js₁).size + 4) (.arr js₁) = .ok ms ∧
     requestsOfJ lib (4 * (J.arr js₂).size + 4) (.arr js₂) = .ok ms := by
-  sorry
+  constructor
+  · rw [requestsOfJ]
+    exact (request_read lib _).2 false ms js₁ h₁ hv (by simp only [J.size]; omega)
+  · rw [requestsOfJ]
+    exact (request_read lib _).2 false ms js₂ h₂ hv (by simp only [J.size]; omega)
 
 /-- an integer that the data type cannot represent, or a number with a fractional part for an integer type, is
     refused — never saturated, truncated or wrapped -/
@@ -30,47 +34,109 @@ theorem integer_out_of_range_rejected (lib : JsonLib) (dt : Nat) (k : Kind) (d :
     (hk : newEmptyKind dt = k) (hw : k.width.isSome) (hf : k ≠ .f32 ∧ k ≠ .f64)
     (hbad : ∀ n, d.toInt? = some n → ¬ k.inRange n) :
     newNumber lib dt d = none := by
-  sorry
+  rw [newNumber_int lib dt k d hk hw hf]
+  cases h : d.toInt? with
+  | none => rfl
+  | some n => simp only [hbad n h, if_false]
 
 /-- an integer the data type can represent is carried exactly, however it is spelled -/
 theorem integer_carried_exactly (lib : JsonLib) (dt : Nat) (k : Kind) (d : Dec) (n : Int)
     (hk : newEmptyKind dt = k) (hw : k.width.isSome) (hf : k ≠ .f32 ∧ k ≠ .f64)
     (hd : d.toInt? = some n) (hr : k.inRange n) :
     newNumber lib dt d = some (.num k n) := by
-  sorry
+  rw [newNumber_int lib dt k d hk hw hf, hd]
+  simp only [hr, if_true]
 
 /-- byte-array elements outside 0…255 or with a fraction are refused -/
 theorem byte_out_of_range_rejected (pre post : List J) (d : Dec)
     (hbad : ∀ n, d.toInt? = some n → ¬ (0 ≤ n ∧ n < 256)) :
     byteArrayOfJ (pre ++ .num d :: post) = none := by
-  sorry
+  induction pre with
+  | nil =>
+    simp only [List.nil_append, byteArrayOfJ]
+    cases h : d.toInt? with
+    | none => rfl
+    | some n => simp only [hbad n h, if_false]
+  | cons x pre ih =>
+    cases x with
+    | num e =>
+      simp only [List.cons_append, byteArrayOfJ, ih]
+      cases e.toInt? with
+      | none => rfl
+      | some n => simp only []; split <;> rfl
+    | _ => rfl
 
 /-- an unknown tag name, or a tag number outside 32 bits, is refused in every notation -/
 theorem unknown_tag_rejected (lib : JsonLib) (tj : J) (h : tagOfJ tj = none) (rest : List J) (f : Nat) :
     (∃ e, requestOfJ lib (f + 1) (.arr (tj :: rest)) = .err e) ∧
     (∀ s, tj = .str s → ∃ e, requestOfJ lib (f + 1) tj = .err e) := by
-  sorry
+  constructor
+  · match rest with
+    | [] => exact ⟨_, by rw [requestOfJ]; simp only [h]; rfl⟩
+    | [x] => exact ⟨_, by rw [requestOfJ]; simp only [h]; rfl⟩
+    | [x, y] => exact ⟨_, by rw [requestOfJ]; simp only [h]; rfl⟩
+    | x :: y :: z :: r => exact ⟨_, by simp only [requestOfJ]; rfl⟩
+  · intro s hs
+    subst hs
+    exact ⟨_, by rw [requestOfJ]; simp only [h]; rfl⟩
 
 /-- a tuple must have one to three elements, and in a three-element tuple the second must name a data type -/
 theorem bad_tuple_rejected (lib : JsonLib) (f : Nat) :
     (∃ e, requestOfJ lib (f + 1) (.arr []) = .err e) ∧
     (∀ a b c d r, ∃ e, requestOfJ lib (f + 1) (.arr (a :: b :: c :: d :: r)) = .err e) ∧
     (∀ a b c, dataTypeOfJ b = none → ∃ e, requestOfJ lib (f + 1) (.arr [a, b, c]) = .err e) := by
-  sorry
+  refine ⟨⟨_, by simp only [requestOfJ]; rfl⟩, fun a b c d r => ⟨_, by simp only [requestOfJ]; rfl⟩, fun a b c h => ?_⟩
+  cases ht : tagOfJ a with
+  | none => exact ⟨_, by rw [requestOfJ]; simp only [ht]; rfl⟩
+  | some t => exact ⟨_, by rw [requestOfJ]; simp only [ht, h]; rfl⟩
 
 /-- the request text must be an array -/
 theorem not_an_array_rejected (lib : JsonLib) (j : J) (f : Nat) (h : ∀ xs, j ≠ .arr xs) :
     ∃ e, requestsOfJ lib (f + 1) j = .err e := by
-  sorry
+  cases j with
+  | arr xs => exact absurd rfl (h xs)
+  | _ => exact ⟨_, by simp only [requestsOfJ]; rfl⟩
 
 /-- the parsers never panic and never run out of fuel -/
 theorem parse_total (lib : JsonLib) (j : J) : requestsOfJ lib (4 * j.size + 4) j ≠ .panic := by
-  sorry
+  exact requests_total lib j _ (by omega)
 
 /-- nothing is transmitted unless parsing and the client's validation both succeed -/
 theorem transmitted_iff (lib : JsonLib) (j : J) (ms : List Msg) :
     requestOutcome lib j = .ok ms ↔
       requestsOfJ lib (4 * j.size + 4) j = .ok ms ∧ validateRequests ms = .ok () := by
-  sorry
+  unfold requestOutcome
+  cases h1 : requestsOfJ lib (4 * j.size + 4) j with
+  | ok ms' =>
+    simp only []
+    cases h2 : validateRequests ms' with
+    | ok u =>
+      simp only []
+      constructor
+      · intro h; cases h; exact ⟨rfl, h2⟩
+      · intro h; cases h.1; rfl
+    | err e =>
+      simp only []
+      constructor
+      · intro h; cases h
+      · intro h; cases h.1; rw [h2] at h; cases h.2
+    | panic =>
+      simp only []
+      constructor
+      · intro h; cases h
+      · intro h; cases h.1; rw [h2] at h; cases h.2
+  | err e => simp only []; exact ⟨fun h => (by cases h), fun h => (by cases h.1)⟩
+  | panic => simp only []; exact ⟨fun h => (by cases h), fun h => (by cases h.1)⟩
 
 end Rscp.Props.C12
+
+#print axioms Rscp.Props.C12.written_is_read
+#print axioms Rscp.Props.C12.notations_agree
+#print axioms Rscp.Props.C12.integer_out_of_range_rejected
+#print axioms Rscp.Props.C12.integer_carried_exactly
+#print axioms Rscp.Props.C12.byte_out_of_range_rejected
+#print axioms Rscp.Props.C12.unknown_tag_rejected
+#print axioms Rscp.Props.C12.bad_tuple_rejected
+#print axioms Rscp.Props.C12.not_an_array_rejected
+#print axioms Rscp.Props.C12.parse_total
+#print axioms Rscp.Props.C12.transmitted_iff
